@@ -140,7 +140,7 @@ def run_e2e(w, case):
     sink.out = ack_link
     if case.get('cc') == 'cubic':
         stats['cc_cubic'] = 1
-    w.run(max_steps=200000)
+    w.run(max_steps=60000)
     for r in w.log:
         if r[0] == 'ERR':
             viol.append(('C16.2/%s' % (r[4][1] if isinstance(r[4], tuple) and len(r[4]) > 1 else 'exc'),
